@@ -378,6 +378,13 @@ def nest_track(F):
     fn = F.one_fn(name="parse_comp", self_adt="Component")
     r.analysed.append(fn["path"])
     stacks = [st["pat"]["hid"] for st in walk(fn["body"]) if st.get("k") == "Let" and st["pat"].get("k") == "Binding" and "Encoding>" in (st["pat"].get("ty") or "")]
+    if len(stacks) == 0 and any(st.get("k") == "Let" and st["pat"].get("k") == "Binding" and st["pat"].get("ty") in ("usize", "u32", "u64", "i32")
+                                and any(x.get("k") == "AssignOp" and peel(x["lhs"]).get("res", {}).get("hid") == st["pat"]["hid"] for x in walk(fn["body"]))
+                                for st in walk(fn["body"])):
+        # the nesting is tracked by a depth counter instead of a stack of encodings (the stack's elements are never read):
+        # a representation this rule's push/pop clauses are not written for — not decided, no alarm
+        r.undecided("parse_comp tracks nesting with a counter, not a Vec<Encoding> stack: open/close pairing not decided for this representation")
+        return r
     if len(stacks) != 1:
         raise CheckError("parse_comp: expected one local nesting stack (Vec<Encoding>), found %d" % len(stacks))
     H = stacks[0]
